@@ -11,5 +11,6 @@ for i in r.inconclusive: print('INCONCLUSIVE', i)
 for f in r.failures:
     print('FAIL', f['obligation'], f['props'])
     if '-v' in sys.argv: print(f['verifier_output'])
+print('retries', r.log.get('solver_budget_retries'))
 print('canary', {k: v for k, v in r.canary.items() if not v})
 print('kept in', keep)
